@@ -454,3 +454,6 @@ def run(tier, seed):
     shards.append(("rerun", seed))
     col = run_shards(_shard, shards)
     return col, {"exhaustive": col.counters.get("caps_hit", 0) == 0, "streams": streams}
+
+
+RULE += (' One algorithm object run 2-3 times with changed N and G (six plans x four algorithms), each run judged on the designs it recorded itself; the stored record of a run read back through a view shows generations of exactly N designs.')
